@@ -161,10 +161,7 @@ func runForeign(c foreignCase) (rec Record) {
 		}
 		doc.Revisions = append(doc.Revisions, rev1)
 		// update 1: free two objects, replace one
-		rev2 := ser.Revision{Kind: kindOf(), Trailer: trl()}
-		if k1 == ser.Stream {
-			rev2.Kind = ser.Stream
-		}
+		rev2 := ser.Revision{Kind: k1, Trailer: trl()}
 		for _, n := range []uint32{5, 6} {
 			rev2.Ops = append(rev2.Ops, ser.Op{Num: n, Kind: ser.Free, Style: ser.Linked})
 			old := obj.Ref{Num: n, Gen: state[n]}
